@@ -65,7 +65,7 @@ PROPS["C12"] = dict(
     rule=PAIR_RULE + "; every pair re-run under translation, Move, scaling by 2^k, x->-x, y->-y, transpose, start-vertex rotation (first, random, last), reversal, closing vertex toggled; the four answers must equal those of the untransformed pair",
     trusted_base=COMMON_TB,
     assumptions=["float64 exact on D (also after translation/scaling: the harness keeps |k| <= 2^23)"],
-    partial=["reflection/re-encoding invariance of ring-level contains/intersects is explored (metamorphic), not proved"],
+    partial=["translation and positive scaling are proved for every pair predicate of the model (AffinePairs.v); reflection / re-encoding invariance of ring-level contains / intersects is explored (metamorphic), not proved - it fails exactly on the known findings"],
 )
 
 PROPS["C04"] = dict(
